@@ -216,6 +216,11 @@ impl Parser for Markdown {
                 | pulldown_cmark::Event::Code(code) => {
                     let chunk_len = code.chars().count();
 
+                    // Empty math (`$$`) has no content to mark.
+                    if chunk_len == 0 {
+                        continue;
+                    }
+
                     tokens.push(Token {
                         span: Span::new_with_len(traversed_chars, chunk_len),
                         kind: TokenKind::Unlintable,
